@@ -158,6 +158,10 @@ def parse(path):
                 flush_sec(); cur.ret = d.split()[1]
             elif d == 'nocanary':
                 flush_sec(); cur.canary = False
+            elif d == 'guarded-canaries':
+                # for functions verified with #[verifier::loop_isolation(false)]: a refuted (then assumed) entry canary
+                # would make the loop canaries vacuous; each canary gets its own guard condition instead
+                flush_sec(); cur.guarded_canaries = True
             elif d == 'orsplit':
                 flush_sec(); cur.orsplit = True
             elif d == 'needs-input':
@@ -221,6 +225,16 @@ def _anchor_id(sec):
     if sec[0] == 'eacharm': return 'each-arm-end'
     if sec[0] == 'loop': return 'loop%d.%s' % (sec[1], sec[2])
     return '%s/%s/#%d' % (sec[1], sec[2], sec[3])
+
+import itertools
+# every canary is guarded by its own uninterpreted condition: a refuted canary is then assumed false only under that
+# condition and cannot make the canaries after it vacuous (matters for loops that are not isolated)
+_CANARY_IDS = itertools.count()
+
+def _canary_text(ex):
+    if getattr(ex, 'guarded_canaries', False):
+        return '\nproof { if canary_cond(%d) { assert(false); } } // canary\n' % next(_CANARY_IDS)
+    return '\nproof { assert(false); } // canary\n'
 
 def build_item(repo, unit, ex, canary, log):
     """returns (final_text, info) for one extract"""
@@ -307,10 +321,10 @@ def build_item(repo, unit, ex, canary, log):
                         raise ScanError('vspec: splice %s in %s is not ghost-only: %s' % (sid, where, chunk[:60]))
             inserts.append((off, seq, sid, '\n' + body.rstrip('\n') + '\n')); seq += 1
         if canary and ex.canary and any(s[0] == 'contract' for s, _ in ex.sections):
-            inserts.append((shape.body_open + 1, -1, 'canary:entry', '\nproof { assert(false); } // canary\n'))
+            inserts.append((shape.body_open + 1, -1, 'canary:entry', _canary_text(ex)))
             for k, lp in enumerate(shape.loops):
                 if any(s[0] == 'loop' and s[1] == k and s[2] == 'invariant' for s, _ in ex.sections):
-                    inserts.append((lp['open'] + 1, -1, 'canary:loop%d' % k, '\nproof { assert(false); } // canary\n'))
+                    inserts.append((lp['open'] + 1, -1, 'canary:loop%d' % k, _canary_text(ex)))
     elif ex.sections or ex.ret:
         raise ScanError('vspec: splices on non-fn item %s' % where)
     inserts.sort(key=lambda x: (x[0], x[1]))
@@ -394,6 +408,12 @@ def generate(repo, vspec_path, canary=False):
         g.functions.append(info)
         out.append(final + '\n'); cur += len(final) + 1
     g.text = ''.join(out)
+    if canary:
+        # the guard conditions of the canaries (declared at the end of the verus! block so that no recorded span moves)
+        k = g.text.rfind('} // verus!')
+        if k < 0:
+            raise ScanError('vspec: no `} // verus!` line to close the unit')
+        g.text = g.text[:k] + 'uninterp spec fn canary_cond(k: int) -> bool;\n' + g.text[k:]
     return g
 
 def locate_offset(g, off):
